@@ -8,6 +8,8 @@ import (
 	"io"
 	"reflect"
 	"strings"
+	"testing/synctest"
+	"time"
 	"unsafe"
 
 	"go.uber.org/zap"
@@ -646,7 +648,51 @@ type c10entry struct {
 	bulk   int   // > 0: the entry carries a string field of this many bytes
 }
 
+// c10bufferedTick: the failing sink sits behind a BufferedWriteSyncer and
+// fails at a timer-driven flush, where no logging call is in progress to
+// report it. The failure is still reported: on the logger's error output, at
+// the latest by the logging calls that follow (the entries cannot be delivered
+// any more, and the logger says so).
+func c10bufferedTick(c *Ctx) {
+	g, r := c.G, c.R
+	dev := zsim.NewSimSink(r, "dev", 1, 5)
+	dev.FailFrom, dev.FailErr = 1, errors.New("device-behind-the-buffer-failure")
+	errOut := zsim.NewSimSink(r, "errout", 1, 3)
+	clk := zsim.NewSimClock(r, drawEpoch(g))
+	bws := &zapcore.BufferedWriteSyncer{WS: dev, Size: 4096, FlushInterval: time.Second}
+	bws.Clock = clk.For(unsafe.Pointer(bws), unsafe.Sizeof(*bws))
+	lg := zap.New(zapcore.NewCore(zapcore.NewJSONEncoder(encCfg()), bws, zapcore.DebugLevel), zap.ErrorOutput(zapcore.Lock(errOut)))
+	nBefore, nAfter := 1+g.Draw(3), 2+g.Draw(3)
+	c.Describe("member=buffered-tick entries-before-the-tick=%d after=%d", nBefore, nAfter)
+	c.Nontrivial = true
+	for i := 0; i < nBefore; i++ {
+		lg.Info("buffered before the tick", zap.Int("i", i))
+	}
+	if !clk.TickAny(true) {
+		c.Fail("C10: harness: the buffered syncer has no ticker", "")
+		return
+	}
+	c.Fault("tick")
+	synctest.Wait() // the flush goroutine has met the failing device
+	if dev.Fired["write-error"] == 0 {
+		c.Fail("C10: harness: the tick did not flush", "")
+		return
+	}
+	for i := 0; i < nAfter; i++ {
+		lg.Info("after the failed tick", zap.Int("i", i))
+	}
+	_ = bws.Stop()
+	if !strings.Contains(string(errOut.Data), "device-behind-the-buffer-failure") {
+		c.Fail("C10: a sink failure at a timer-driven flush of a buffered sink is reported nowhere", "%d entries before the tick, the flush failed, %d entries logged afterwards; error output: %q", nBefore, nAfter, clip(errOut.Data))
+	}
+	c.R.Probe("sink failure at a timer-driven flush of a buffered sink")
+}
+
 func runC10(c *Ctx) {
+	if c.G.Chance(30) {
+		c10bufferedTick(c)
+		return
+	}
 	g, f, r := c.G, c.F, c.R
 	simsync.SetPolicy(pick(g, simsync.PoolLIFO, simsync.PoolLIFO, simsync.PoolRandom), uint64(g.Draw(1<<16))+1, 0)
 	guardDone := guardOn(c)
